@@ -122,3 +122,32 @@ func VerifC07_WritersVsBackgroundFlush() {
 	}
 	vsym.Reach("done")
 }
+
+// VerifC07_PairsOnAgedEngine: the same pairs, but on an engine that has a history - two flushed level-0 tables, one
+// completed compaction cycle that produced output files, and (variant) a restart on those files - because caches,
+// statistics and bookkeeping that only exist after such maintenance are shared state too. No data race, no panic,
+// no deadlock, both calls return.
+func VerifC07_PairsOnAgedEngine() {
+	h := &hEnv{maxMem: 2}
+	h.hKeys(2)
+	h.hOpen(true, false)
+	e := h.e
+	vsym.Assert(e.Put(h.K[0], vsym.Bytes("v0", 1)) == nil, "Put failed")
+	vsym.Assert(e.FlushImMemTables() == nil, "Flush failed")
+	vsym.Assert(e.Put(h.K[1], vsym.Bytes("v1", 1)) == nil, "Put failed")
+	vsym.Assert(e.FlushImMemTables() == nil, "Flush failed")
+	vsym.Assert(e.TriggerCompaction() == nil, "TriggerCompaction failed")
+	if vsym.IntRange("restart", 0, 1) == 1 {
+		vsym.Assert(e.Close() == nil, "Close failed")
+		h.hOpen(false, false)
+		e = h.e
+	}
+	a := vsym.IntRange("a", 0, 12)
+	b := vsym.IntRange("b", a, 12)
+	var wg sync.WaitGroup
+	wg.Add(2)
+	go func() { defer wg.Done(); c07Call(e, a, h.K[0], vsym.Bytes("va", 1)) }()
+	go func() { defer wg.Done(); c07Call(e, b, h.K[1], vsym.Bytes("vb", 1)) }()
+	wg.Wait()
+	vsym.Reach("done")
+}
